@@ -74,6 +74,7 @@ type Sim struct {
 	NRoots, NFrames, NInstr, NStates int
 	FuncsSeen                        map[string]bool
 	Resolved                         map[string]string // dynamic call site -> callee (for the VTA cross-check)
+	ResolvedSites                    map[ssa.Instruction]map[*ssa.Function]bool
 
 	fieldRule map[*types.Var]*FieldRule
 	condRule  map[*types.Var]*CondRule
@@ -2071,6 +2072,7 @@ func (s *Sim) doCall(fr *Frame, in ssa.Instruction, c *ssa.CallCommon, st *State
 		if cf != nil && !s.T.Opaque[FuncName(cf)] {
 			if c.StaticCallee() == nil || c.IsInvoke() {
 				s.Resolved[s.P.InstrPos(in)+" in "+FuncName(in.Parent())] = FuncName(cf)
+				s.noteResolved(in, cf)
 			}
 			if fr.onStack(cf) || fr.Depth > 24 {
 				return []*State{st} // recursion: cut (no lock-relevant recursion exists; asserted by P on exits)
@@ -2099,6 +2101,7 @@ func (s *Sim) doCall(fr *Frame, in ssa.Instruction, c *ssa.CallCommon, st *State
 				x = st.clone()
 			}
 			s.Resolved[s.P.InstrPos(in)+" in "+FuncName(in.Parent())+" #"+itoa(i)] = FuncName(cv.Fn)
+			s.noteResolved(in, s.inlinable(cv.Fn))
 			s.nframe++
 			nf := &Frame{Fn: s.inlinable(cv.Fn), Params: args, Free: cv.Bind, Parent: fr, Site: in, Depth: fr.Depth + 1, id: s.nframe}
 			out = append(out, s.execInlined(nf, x)...)
@@ -2536,4 +2539,16 @@ func (s *Sim) onPanic(fr *Frame, pn *ssa.Panic, st *State) {
 		}
 		s.ob("PX", pn.Parent(), "panic-exit", len(leaked) == 0, det, pn)
 	}
+}
+
+func (s *Sim) noteResolved(in ssa.Instruction, fn *ssa.Function) {
+	if s.ResolvedSites == nil {
+		s.ResolvedSites = map[ssa.Instruction]map[*ssa.Function]bool{}
+	}
+	m := s.ResolvedSites[in]
+	if m == nil {
+		m = map[*ssa.Function]bool{}
+		s.ResolvedSites[in] = m
+	}
+	m[fn] = true
 }
